@@ -212,6 +212,14 @@ func (e *Env) eval(x Expr) TV {
 	case ECond:
 		c := e.asBool(e.eval(x.C))
 		a, b := e.eval(x.A), e.eval(x.B)
+		if a.T.K == KSet || b.T.K == KSet {
+			sa, sb := e.asSet(a), e.asSet(b)
+			if sa.Arr != nil && sb.Arr != nil {
+				arr := Ite(c, *sa.Arr, *sb.Arr)
+				return TV{SetVal{Mem: func(y Term) Term { return Select(arr, y) }, Arr: &arr, Elem: sa.Elem}, setOf(sa.Elem)}
+			}
+			return TV{SetVal{Mem: func(y Term) Term { return Ite(c, sa.Mem(y), sb.Mem(y)) }, Elem: sa.Elem}, setOf(sa.Elem)}
+		}
 		return TV{Ite(c, e.asTerm(a), e.asTerm(b)), a.T}
 	case ESel:
 		return e.evalSel(x)
@@ -250,6 +258,19 @@ func (e *Env) eval(x Expr) TV {
 		return TV{Eq(vc.tagOf(e.asTerm(v)), vc.tagFor(ty)), tBool}
 	case EQuant:
 		return e.evalQuant(x)
+	case ESetComp:
+		ty := e.resolveType(x.Var.T)
+		outer := e
+		return TV{SetVal{Mem: func(y Term) Term {
+			ne := *outer
+			ne.vars = make(map[string]TV, len(outer.vars)+1)
+			for k, v := range outer.vars {
+				ne.vars[k] = v
+			}
+			ne.depth = outer.depth + 1
+			ne.vars[x.Var.Name] = TV{y, ty}
+			return ne.asBool(ne.eval(x.Body))
+		}, Elem: ty}, setOf(ty)}
 	case ESetLit:
 		var elems []Term
 		var et SType
@@ -358,7 +379,8 @@ func (e *Env) evalBinary(x EBinary) TV {
 	case "subset":
 		sa, sb := e.asSet(a), e.asSet(b)
 		y := Term{fmt.Sprintf("y!%d", e.depth), sa.Elem.SortOf()}
-		return TV{Forall([]Term{y}, Implies(sa.Mem(y), sb.Mem(y))), tBool}
+		body := Implies(sa.Mem(y), sb.Mem(y))
+		return TV{Forall([]Term{y}, body), tBool}
 	}
 	ta, tb := e.asInt(a), e.asInt(b)
 	rt := a.T
@@ -395,7 +417,8 @@ func (e *Env) equal(a, b TV) Term {
 		e2 := *e
 		e2.depth++
 		y := Term{fmt.Sprintf("y!%d", e.depth), sa.Elem.SortOf()}
-		return Forall([]Term{y}, Eq(sa.Mem(y), sb.Mem(y)))
+		body := Eq(sa.Mem(y), sb.Mem(y))
+		return Forall([]Term{y}, body)
 	}
 	if sa, ok := a.V.(SliceVal); ok {
 		sb, ok2 := b.V.(SliceVal)
@@ -504,6 +527,10 @@ func (e *Env) evalIndex(x EIndex) TV {
 		return TV{Select(Select(vc.mapComp(e.heap, base.T, "mapval"), m), idx), vt}
 	case KSlice:
 		sv := base.V.(SliceVal)
+		if sv.Elem.K == KStruct {
+			// located struct element: fields are read through "elems:<T>.<field>" components
+			return TV{PtrVal{Loc: Loc{"elems:" + sv.Elem.String(), []Term{sv.Arr, Add(sv.Off, idx)}}, Elem: sv.Elem}, sv.Elem}
+		}
 		return TV{vc.sliceElem(e.heap, sv, idx), sv.Elem}
 	case KSeq:
 		return TV{Select(e.asTerm(base), idx), *base.T.Elem}
@@ -606,7 +633,14 @@ func (e *Env) evalCall(x ECall) TV {
 		v := e.eval(x.Args[0])
 		sv := e.asSet(v)
 		if sv.Arr == nil {
-			efail("card of a set that is not an array term")
+			probe := Term{"|probe$0|", SInt}
+			if strings.Contains(sv.Mem(probe).S, "!") {
+				efail("card of a set expression that depends on a bound variable")
+			}
+			arr := vc.script.Declare("set:materialized", ArrSort(SInt, SBool))
+			y := Term{"y!", SInt}
+			vc.script.Assume(Forall([]Term{y}, Eq(Select(arr, y), sv.Mem(y)), []Term{Select(arr, y)}))
+			return TV{vc.card(arr), tInt}
 		}
 		return TV{vc.card(*sv.Arr), tInt}
 	case "setview":
@@ -1059,4 +1093,34 @@ func (vc *VC) inseqAxioms(a, off, n Term) {
 	// one-step unfolding for this particular length (no recursion: the shorter prefix gets no axiom of its own)
 	last := Select(a, Add(off, Sub(n, One)))
 	vc.script.Assume(Forall([]Term{y}, Eq(vc.inseq(a, off, n, y), And(Gt(n, Zero), Or(vc.inseq(a, off, Sub(n, One), y), Eq(last, y)))), []Term{vc.inseq(a, off, n, y)}))
+}
+
+
+// lane is one scalar component of a slice element type (one per field for struct elements).
+type lane struct {
+	comp string
+	sort Sort
+	ft   SType
+}
+
+func (vc *VC) elemLanes(el SType) []lane {
+	if el.single() {
+		return []lane{{vc.elemsComp(el), el.SortOf(), el}}
+	}
+	if el.K != KStruct {
+		efail("slice element type %s unsupported", el)
+	}
+	var out []lane
+	s, _ := structOf(el.Go)
+	for i := 0; i < s.NumFields(); i++ {
+		f := s.Field(i)
+		ft := FromGo(f.Type())
+		if !ft.single() {
+			efail("slice of struct %s with composite field %s unsupported", el, f.Name())
+		}
+		name := "elems:" + el.String() + "." + f.Name()
+		vc.registerComp(name, compInfo{Sort: ArrSort(SInt, ArrSort(SInt, ft.SortOf())), Depth: 2, RefVals: isRefKind(ft), NonNeg: ft.K == KInt && ft.Unsigned})
+		out = append(out, lane{name, ft.SortOf(), ft})
+	}
+	return out
 }
